@@ -328,7 +328,7 @@ func c11MakePartition(r *prng.R) *c11In {
 		case 1:
 			gi.Unlock, gi.UnlockNil = nil, true
 		case 2:
-			gi.Unlock = r.Bytes(prng.Pick(r, []int{106, 107, 108}))
+			gi.Unlock = r.Bytes(prng.Pick(r, []int{106, 107, 108, 106, 107, 108, 252, 253, 254, 300, 1000, 65535, 65536})) // as signed by the stock unlocker, or by the caller's own (longer scripts, on both sides of the length-prefix classes)
 		default:
 			gi.Unlock = r.Bytes(1 + r.Intn(120))
 		}
@@ -363,7 +363,7 @@ func c11MakeRelation(r *prng.R, rel, basis string, q mQuote) *c11In {
 		case 0:
 			gi.Unlock, gi.UnlockNil = nil, true
 		case 1:
-			gi.Unlock = r.Bytes(prng.Pick(r, []int{106, 107, 108}))
+			gi.Unlock = r.Bytes(prng.Pick(r, []int{106, 107, 108, 106, 107, 108, 252, 253, 254, 300, 1000, 65535, 65536})) // as signed by the stock unlocker, or by the caller's own (longer scripts, on both sides of the length-prefix classes)
 		}
 		t.Ins = append(t.Ins, gi)
 	}
